@@ -87,6 +87,40 @@ def run(tier='quick', repo=None):
                     bad.append('%s for REGISTER: %s, %s for UNREGISTER: %s' % (a, a in r, b, b in un))
             rep.add('R-reqpair', rname, VIOLATED if bad else HOLDS, u.funcs[rname].loc, register=sorted(r), unregister=sorted(un),
                     **({'what': 'register and unregister use different mechanisms: ' + '; '.join(bad)} if bad else {}))
+    # ---- R-answer-back -----------------------------------------------------------------
+    rep.rule('R-answer-back', 'a function installed as the provide call-back of a forwarded request (stored into ->urequest_provide: the proxy of UPIPE_HELPER_OUTPUT, '
+             'upipe_crop, the queue source) passes the answer on - urequest_provide_proxy / urequest_provide_*(upstream) / a push on the upstream queue - on every '
+             'path to a return, the allocation-failure return excepted: an answer given by the downstream pipe or probe always travels back towards the requester')
+    nback = 0
+    for uname, u in sorted(prog.units.items()):
+        cbs = []
+        for fn in u.funcs.values():
+            if not fn.blocks:
+                continue
+            for bid, st, x in fn.nodes():
+                if is_assign(x):
+                    l = strip(x['lhs'])
+                    if isinstance(l, dict) and l.get('k') == 'mem' and l.get('f') == 'urequest_provide':
+                        r = strip_all_casts(fn.resolve(x['rhs']))
+                        if isinstance(r, dict) and r.get('k') == 'ref' and r.get('n') in u.funcs and u.funcs[r['n']].blocks and u.funcs[r['n']] not in cbs:
+                            cbs.append(u.funcs[r['n']])
+        for cb in sorted(cbs, key=lambda f: f.name):
+            if not (cb.inmain or cb.macro):
+                continue
+            nback += 1
+            ev = pr.Events(cb)
+            fwd = pr.m_call(r'urequest_provide_\w+|uqueue_push')
+
+            def plain_return(n, cb=cb):
+                if n.get('k') != 'return':
+                    return False
+                return enum_name(n['e']) != 'UBASE_ERR_ALLOC' if isinstance(n.get('e'), dict) else True
+            bad = pr.must_precede(ev, fwd, plain_return)
+            rep.add('R-answer-back', cb.name, VIOLATED if bad else HOLDS, cb.loc if not bad else '%s:%s' % (cb.file, bad[0][2].get('l')),
+                    **({'what': '%s can return (line %s) without having passed the answer on: the requester never receives what the downstream provided' % (
+                        cb.name, bad[0][2].get('l'))} if bad else {}))
+    if nback < 20:
+        raise facts.AnalysisBroken('only %d provide call-backs of forwarded requests found' % nback)
     # ---- R-bin-fields -------------------------------------------------------------------
     rep.rule('R-bin-fields', 'a pipe type that instantiates both UPIPE_HELPER_BIN_INPUT and UPIPE_HELPER_BIN_OUTPUT binds FIRST_INNER and LAST_INNER to two different '
              'structure members: with one member store_bin_output() overwrites the pipe store_bin_input() has to withdraw the listed requests from, so the old '
